@@ -368,6 +368,60 @@ pub mod native_dummy {
     }
 }
 
+pub mod labelled_target {
+    //! An upgrade target whose reported version is *state*: `upgrade(hash)` stamps the label
+    //! "0.<hash[0]>.0" (and opens its migration step), `migrate(Option<String>)` re-stamps it with
+    //! the given label.  No code is swapped.  It exists so that "the target ends at the requested
+    //! version" is observable after each of the Upgrader's two steps separately — with the
+    //! pre-built wasm targets the version is a constant of the code.
+    use soroban_sdk::{contract, contractimpl, contracttype, Address, BytesN, Env, String};
+
+    #[contracttype]
+    pub enum Key {
+        Owner,
+        Label,
+        Pending,
+    }
+
+    #[contract]
+    pub struct LabelledTarget;
+
+    #[contractimpl]
+    impl LabelledTarget {
+        pub fn __constructor(env: Env, owner: Address) {
+            env.storage().instance().set(&Key::Owner, &owner);
+            env.storage().instance().set(&Key::Label, &String::from_str(&env, "0.1.0"));
+        }
+        pub fn owner(env: Env) -> Address {
+            env.storage().instance().get(&Key::Owner).unwrap()
+        }
+        pub fn version(env: Env) -> String {
+            env.storage().instance().get(&Key::Label).unwrap()
+        }
+        pub fn pending(env: Env) -> bool {
+            env.storage().instance().has(&Key::Pending)
+        }
+        pub fn upgrade(env: Env, new_wasm_hash: BytesN<32>) {
+            Self::owner(env.clone()).require_auth();
+            let b = new_wasm_hash.to_array()[0] % 10;
+            let mut label = *b"0.0.0";
+            label[2] = b'0' + b;
+            env.storage().instance().set(&Key::Label, &String::from_str(&env, core::str::from_utf8(&label).unwrap()));
+            env.storage().instance().set(&Key::Pending, &());
+        }
+        pub fn migrate(env: Env, migration_data: Option<String>) {
+            Self::owner(env.clone()).require_auth();
+            if !env.storage().instance().has(&Key::Pending) {
+                panic!("no upgrade pending");
+            }
+            env.storage().instance().remove(&Key::Pending);
+            if let Some(l) = migration_data {
+                env.storage().instance().set(&Key::Label, &l);
+            }
+        }
+    }
+}
+
 pub mod mirror_keys {
     //! Mirror of the interfaces' private storage key for the migration window
     //! (same variant name, hence the same ledger key).
